@@ -18,9 +18,11 @@ import (
 	"github.com/luno/workflow/verifharness/rng"
 )
 
-type TimeoutStoreFactory func() (workflow.TimeoutStore, func())
+type TimeoutStoreFactory func() (workflow.TimeoutStore, func(), func() []string)
 
-func MemTimeoutStore() (workflow.TimeoutStore, func()) { return memtimeoutstore.New(), func() {} }
+func MemTimeoutStore() (workflow.TimeoutStore, func(), func() []string) {
+	return memtimeoutstore.New(), func() {}, nil
+}
 
 type tsOp struct {
 	Kind             string // create | complete | cancel | valid
@@ -155,10 +157,18 @@ func tsSig(o tsOp, impl string, ops []tsOp) string {
 }
 
 func runTsSeq(mk TimeoutStoreFactory, d *leandrv.Driver, ops []tsOp, res *report.Result, prop, suite, label string) error {
-	st, closeFn := mk()
+	st, closeFn, inspect := mk()
 	defer closeFn()
 	if _, err := d.Ask("ts reset"); err != nil {
 		return err
+	}
+	if inspect != nil {
+		defer func() {
+			for _, problem := range inspect() {
+				res.Violate(report.Violation{Property: prop, Oracle: "statement-log", Signature: strings.SplitN(problem, ":", 2)[0],
+					Detail: problem, Replay: map[string]any{"suite": suite, "ops": ops}})
+			}
+		}()
 	}
 	ctx := context.Background()
 	for i, o := range ops {
